@@ -65,7 +65,9 @@ Theorem C11_valid_is_inside_bytes : forall input p,
 Proof. exact valid_inside_bytes. Qed.
 Print Assumptions C11_valid_is_inside_bytes.
 
-(* collect-all mode reports the fail-fast diagnostic first (and both modes accept the same inputs) *)
+(* collect-all mode reports the fail-fast diagnostic first (and both modes accept the same inputs).
+   A diagnostic is its range and its message (diag: dstart, dend, dmsg — the bytes of Err.Error(),
+   formatted from the texts, formats and expected token sets the translator reads from the code) *)
 Theorem C11_collect_first_is_failfast : forall data,
   match parse_runes true data, parse_runes false data with
   | Ok p1, Ok p2 => hd_error (pdiags p1) = hd_error (pdiags p2)
